@@ -21,6 +21,7 @@ structure Tun where
   initSections : Nat    -- req_constants::INIT_NUM_SECTIONS
   multiplier : Nat      -- req_constants::MULTIPLIER
   lazy : Bool           -- req_sketch::LAZY_COMPRESSION
+  initCoinRandom : Bool := false   -- source shape: the regular req_compactor constructor draws its initial coin (true) or starts with `coin_(false)` (false)
   deriving Repr
 
 /-- the float side of `ensure_enough_sections` -/
@@ -58,6 +59,11 @@ variable {ρ : Type}
 def Compactor.mk' (T : Tun) (F : SecFns ρ) (hra : Bool) (lgWeight : Nat) (sectionSize : Nat) : Compactor ρ :=
   { lgWeight := lgWeight, hra := hra, coin := false, sorted := true, ssRaw := F.ofNat sectionSize,
     sectionSize := sectionSize, numSections := T.initSections, state := 0, items := [] }
+
+/-- the regular constructor in the shape the headers have: `d` is the coin `random_bit()` returns if it is called -/
+def Compactor.mkC (T : Tun) (F : SecFns ρ) (hra : Bool) (lgWeight : Nat) (sectionSize : Nat) (d : Bool) : Compactor ρ :=
+  if T.initCoinRandom then { Compactor.mk' T F hra lgWeight sectionSize with coin := d, rnd := true }
+  else Compactor.mk' T F hra lgWeight sectionSize
 
 def Compactor.numItems (c : Compactor ρ) : Nat := c.items.length
 
